@@ -61,8 +61,8 @@ CHECKS += [
   "text": "Decides: the constructor and the pre-loop part of get_localgrid are free of broadcast/matmul/index/empty-reduction failures and keep one row per lattice vector in all 21 admissible shape configurations (flat 1-D or (N,D) points, 0..D lattice vectors, wrap on/off); and three guards: accumulators that can be empty are tested before stacking (empty spheres), plane spacings provably non-negative (any sign of lattice vectors), no argument rejection beyond the plain grid without lattice vectors (one known finding: infinite radius, pinned by a test). Does NOT decide completeness/uniqueness of the image enumeration (geometric).",
   "note": _NOTE},
  {"id": "C13", "engine": "gridlint", "design_ref": "DESIGN.md 4/C13",
-  "technique": "static guard-dominance analysis of third-axis constructs + symbolic array-shape abstract interpretation (per dimensionality) of the weight schemes",
-  "text": "Decides the clause 'every documented weighting scheme (and the index maps) construct in both dimensions': every construct that only exists in 3-D is dominated by a test implying ndim == 3; and the tensor-layout clause for weights: in 2-D and 3-D every scheme returns the C-order flattening of an array with axes (shape[0], shape[1][, shape[2]]) (or a uniform vector), Tensor1DGrids krons its weights in the meshgrid('ij') order of its points. Does NOT decide index-map inversion arithmetic, weights summing to the volume, nearest point, molecule margin, cube round trip, interpolation (numerical).",
+  "technique": "static guard-dominance analysis of third-axis constructs + symbolic array-shape abstract interpretation (per dimensionality) of the weight schemes + symbolic stride tables of the index maps",
+  "text": "Decides the clause 'every documented weighting scheme (and the index maps) construct in both dimensions': every construct that only exists in 3-D is dominated by a test implying ndim == 3; and the tensor-layout clause for weights: in 2-D and 3-D every scheme returns the C-order flattening of an array with axes (shape[0], shape[1][, shape[2]]) (or a uniform vector), Tensor1DGrids krons its weights in the meshgrid('ij') order of its points; the forward index map multiplies by the row-major strides (n1*n2, n2, 1)/(n1, 1), evaluated symbolically per dimensionality, and the inverse map divides by the same table. Does NOT decide weights summing to the volume, nearest point, molecule margin, cube round trip, interpolation (numerical).",
   "note": _NOTE},
  {"id": "C14", "engine": "gridlint", "design_ref": "DESIGN.md 4/C14",
   "technique": "static name resolution of third-party references + branch-shape analysis of the order generator + dispatch agreement + array-shape abstract interpretation of the moment routine for dimensions 1-3",
